@@ -175,6 +175,7 @@ func NewLeaderController(config Config, namespace string, shardId int64, rpcClie
 
 	lc.db.EnableNotifications(lc.termOptions.NotificationsEnabled)
 	lc.setLogger()
+	verifEmit(lc, "LCreated", "term", lc.term, "status", lc.status.String())
 	lc.log.Info("Created leader controller")
 	return lc, nil
 }
@@ -239,8 +240,10 @@ func (lc *leaderController) NewTerm(req *proto.NewTermRequest) (*proto.NewTermRe
 	}
 
 	if req.Term < lc.term {
+		verifEmit(lc, "LNewTerm", "req", req.Term, "ok", false, "term", lc.term, "status", lc.status.String())
 		return nil, constant.ErrInvalidTerm
 	} else if req.Term == lc.term && lc.status != proto.ServingStatus_FENCED {
+		verifEmit(lc, "LNewTerm", "req", req.Term, "ok", false, "term", lc.term, "status", lc.status.String())
 		// It's OK to receive a duplicate Fence request, for the same term, as long as we haven't moved
 		// out of the Fenced state for that term
 		lc.log.Warn(
@@ -300,6 +303,7 @@ func (lc *leaderController) NewTerm(req *proto.NewTermRequest) (*proto.NewTermRe
 		return nil, err
 	}
 
+	verifEmit(lc, "LNewTerm", "req", req.Term, "ok", true, "term", lc.term, "status", lc.status.String(), "ht", headEntryId.Term, "ho", headEntryId.Offset)
 	lc.log.Info(
 		"Leader successfully initialized in new term",
 		slog.Any("last-entry", headEntryId),
@@ -344,10 +348,12 @@ func (lc *leaderController) BecomeLeader(ctx context.Context, req *proto.BecomeL
 	}
 
 	if lc.status != proto.ServingStatus_FENCED {
+		verifEmit(lc, "LBecome", "req", req.Term, "ok", false, "term", lc.term, "status", lc.status.String())
 		return nil, constant.ErrInvalidStatus
 	}
 
 	if req.Term != lc.term {
+		verifEmit(lc, "LBecome", "req", req.Term, "ok", false, "term", lc.term, "status", lc.status.String())
 		return nil, constant.ErrInvalidTerm
 	}
 
@@ -393,6 +399,7 @@ func (lc *leaderController) BecomeLeader(ctx context.Context, req *proto.BecomeL
 	)
 
 	lc.status = proto.ServingStatus_LEADER
+	verifEmit(lc, "LBecome", "req", req.Term, "ok", true, "term", lc.term, "status", lc.status.String(), "head", lc.leaderElectionHeadEntryId.Offset, "commit", lc.quorumAckTracker.CommitOffset())
 	return &proto.BecomeLeaderResponse{}, nil
 }
 
@@ -841,6 +848,7 @@ func (lc *leaderController) write(ctx context.Context, requestSupplier func(offs
 	walLog := lc.wal
 	tracker := lc.quorumAckTracker
 	term := lc.term
+	verifEmit(lc, "LAlloc", "off", newOffset, "term", term, "status", lc.status.String())
 	lc.Unlock()
 	verifWriteGate(lc.shardId, newOffset)
 	request := requestSupplier(newOffset)
@@ -865,15 +873,18 @@ func (lc *leaderController) write(ctx context.Context, requestSupplier func(offs
 		Timestamp: timestamp,
 	}, func(err error) {
 		if err != nil {
+			verifEmit(lc, "LAppendFail", "off", newOffset)
 			timer.Done() //nolint:contextcheck
 			cb.OnCompleteError(errors.Wrap(err, "oxia: failed to append to wal"))
 			return
 		}
+		verifEmit(lc, "LSynced", "off", newOffset)
 		tracker.AdvanceHeadOffset(newOffset)
 		tracker.WaitForCommitOffsetAsync(ctx, newOffset, concurrent.NewOnce[any](
 			func(_ any) { //nolint:contextcheck
 				defer timer.Done()
 				var wr *proto.WriteResponse
+				verifEmit(lc, "LApply", "off", newOffset, "commit", tracker.CommitOffset())
 				if wr, err = lc.db.ProcessWrite(request, newOffset, timestamp, WrapperUpdateOperationCallback); err != nil {
 					cb.OnCompleteError(err)
 					return
